@@ -54,6 +54,16 @@ def gen_spec(rng, kind, dyadic):
         while len(set(times)) < ntime:
             times = sorted(rng.uniform(-3.0, 50.0) for _ in range(ntime))
         val = lambda: rng.uniform(-500.0, 900.0)
+    u = rng.random()
+    if u < 0.25:
+        # a long history with one very short interval at its end (u < 0.125) or at its start: about a day and a half
+        # in seconds, held and then blown down in half a second.  The samples next to the end points are data like any
+        # other.  (All intervals are powers of two, so that the dyadic cases stay exact in floating point.)
+        base, short = 131072.0, rng.choice([0.5, 0.25, 0.125])
+        if u < 0.125:
+            times = [base - short - 32768.0 - 16384.0, base - short - 32768.0, base - short, base][-ntime:]
+        else:
+            times = [base, base + short, base + short + 16384.0, base + short + 16384.0 + 32768.0][:ntime]
     spec = dict(kind=kind, r=r, h=h, nt=nt, nz=nz, times=times, dyadic=dyadic)
     if kind in SURFACE:
         spec["data"] = [[[val() for _ in range(nz)] for _ in range(nt)] for _ in range(ntime)]
@@ -314,7 +324,8 @@ def compare(spec, meth, args, real, ans, scale):
     exact = all(Fraction(a) == b for a, b in zip(rv, m[2]))
     if exact:
         return (True, True, "")
-    tol = 1e-12 * max(1.0, scale)
+    # relative to the size of the data and of the result (an extrapolation off a very short interval is large)
+    tol = 1e-12 * max(1.0, scale, max(abs(float(b)) for b in m[2]))
     worst = max(abs(a - float(b)) for a, b in zip(rv, m[2]))
     return (worst <= tol, False, "max |real-model| = %.3e (tol %.1e)" % (worst, tol))
 
@@ -494,7 +505,12 @@ def predicate_object(spec, rng=None, quick=True):
 def int_grid(g):
     """the integers inside [g[0], g[-1]] as an integer-typed array"""
     lo, hi = int(np.ceil(g[0])), int(np.floor(g[-1]))
-    return np.arange(lo, hi + 1, dtype=int)
+    if hi - lo + 1 <= 64:
+        return np.arange(lo, hi + 1, dtype=int)
+    # a long axis: an even sample plus the integers next to every grid point
+    near = [int(f(x)) for x in g for f in (np.floor, np.ceil)]
+    pts = np.concatenate([np.linspace(lo, hi, 40).astype(int), np.array(near, dtype=int)])
+    return np.unique(pts[(pts >= lo) & (pts <= hi)]).astype(int)
 
 
 def check_elementwise(bc, meth, args, shape, bad, val1):
